@@ -25,8 +25,10 @@ REQUIRED = ['split_partition', 'pairing_ne', 'pairing_double', 'trainOf_schedule
 RULE = ('configuration cells enumerated: 4 estimator classes x n_splits 2..6 (3..6 double) x n_partitions 1..4; per '
         'cell random sample size (incl. sizes not divisible by n_splits and tiny parts), random learner kind '
         '(predict_proba spy / predict-only spy / spy wrapping a real sklearn learner), binary or continuous outcome, '
-        'rows with missing values, non-default index, optional bound, median/mean; every case is run twice with the '
-        'same random_state.  distinct = distinct (class, n_splits, n_partitions, n, data seed); non-trivial = n not '
+        'rows with missing values, non-default index, optional bound, median/mean; cases are run twice with the same '
+        'random_state (incl. the falsy seed 0 for every class); warm-start learners (a fit continues from what the '
+        'object has seen); histories of 3 respecify+fit steps with varying n_splits / n_partitions / method / learners '
+        'on one object, each judged like a single fit and the last compared with a fresh object.  distinct = distinct (class, n_splits, n_partitions, n, data seed); non-trivial = n not '
         'divisible by n_splits or n_partitions > 1')
 ASSUMPTIONS = ['DataFrame.sample(n=m, random_state=RandomState(seed)) returns m distinct rows of its argument '
                '(measured on a reference invocation per observed draw)',
@@ -60,15 +62,16 @@ class _SpyBase(BaseEstimator):
     `nested=True` the fitted state lives in a nested object (composite learner).  What a copy's current fit saw
     is always read from that state object at prediction time."""
 
-    def __init__(self, role='t', inner=None, nested=False):
+    def __init__(self, role='t', inner=None, nested=False, warm=False):
         self.role = role
         self.inner = inner
         self.nested = nested
+        self.warm = warm      # warm start: fit() continues from what the object has already seen (sklearn warm_start)
         if nested:
             self.state = _State()
 
     def get_params(self, deep=True):
-        return {'role': self.role, 'inner': self.inner, 'nested': self.nested}
+        return {'role': self.role, 'inner': self.inner, 'nested': self.nested, 'warm': self.warm}
 
     def set_params(self, **p):
         for k, v in p.items():
@@ -81,14 +84,19 @@ class _SpyBase(BaseEstimator):
 
     def fit(self, X, y):
         X = np.asarray(X)
+        prev = getattr(self, 'state', None)
+        carried = list(prev.train_ids) if (self.warm and prev is not None) else []
         st = self.state if self.nested else _State()
         st.fit_id = next(_COUNTER)
-        st.train_ids = [int(v) for v in X[:, 0]]
+        ids = [int(v) for v in X[:, 0]]
+        # `train_ids` = everything the fitted state has seen: for a warm-start learner a fit on an object that was
+        # fitted before (or on a copy of one) continues from it; a pristine copy has seen its own part only
+        st.train_ids = carried + ids
         st.salt = (sum(st.train_ids) * 31 + len(st.train_ids)) % 997
         if self.inner is not None:
             st.inner = copy.deepcopy(self.inner).fit(X, np.asarray(y))
         self.state = st
-        LOG.append({'ev': 'fit', 'role': self.role, 'fit_id': st.fit_id, 'ids': list(st.train_ids)})
+        LOG.append({'ev': 'fit', 'role': self.role, 'fit_id': st.fit_id, 'ids': ids})
         return self
 
     def _values(self, X, how):
@@ -140,6 +148,12 @@ def make_learners(kind, continuous):
         return SpyProba('t', nested=True), ycls('y', nested=True)
     if kind == 'nested_reg':
         return SpyProba('t', nested=True), SpyReg('y', nested=True)
+    if kind == 'warm':            # warm-start learners (flat)
+        return SpyProba('t', warm=True), ycls('y', warm=True)
+    if kind == 'warm_nested':     # warm-start composite learners
+        return SpyProba('t', nested=True, warm=True), ycls('y', nested=True, warm=True)
+    if kind == 'warm_pipeline':
+        return _pipeline(SpyProba('t', warm=True)), _pipeline(ycls('y', warm=True))
     if kind == 'pipeline':        # real sklearn Pipeline around a spy (treatment and outcome)
         return _pipeline(SpyProba('t')), _pipeline(ycls('y'))
     from sklearn.linear_model import LogisticRegression, LinearRegression
@@ -153,8 +167,8 @@ def make_learners(kind, continuous):
     return SpyProba('t', inner_a), SpyProba('y', LogisticRegression(C=0.5, max_iter=200))
 
 
-KINDS = ['proba', 'nested', 'reg', 'pipeline', 'real', 'nested_reg', 'nested_real']
-KINDS_TINY = ['proba', 'nested', 'reg', 'pipeline', 'nested_reg']
+KINDS = ['proba', 'nested', 'warm', 'reg', 'pipeline', 'real', 'warm_nested', 'nested_reg', 'nested_real', 'warm_pipeline']
+KINDS_TINY = ['proba', 'nested', 'warm', 'reg', 'pipeline', 'nested_reg', 'warm_nested']
 
 
 def gen_data(case):
@@ -183,28 +197,54 @@ def gen_data(case):
     return df, rows
 
 
-def run_impl(case):
-    """one fit of the real estimator; returns (log, results, error)"""
+def _results(est, continuous):
+    if continuous:
+        return [list(map(float, est.ace_vector)), list(map(float, est.ace_var_vector)), float(est.ace)]
+    return [list(map(float, est.risk_difference_vector)), list(map(float, est.risk_difference_var_vector)),
+            float(est.risk_difference), list(map(float, est.risk_ratio_vector))]
+
+
+def _learner_side(tb):
+    """did the exception come out of the user's learner (e.g. a real classifier given a one-class part)?"""
+    return any(fr.name in ('fit', '_values') and fr.filename.endswith('c04.py') for fr in tb)
+
+
+def run_steps(case, steps):
+    """specify + fit, once per step, on ONE estimator object -> per step (log, results, error, learner_side)"""
+    import traceback
     import zepid.causal.doublyrobust as dr
     df, rows = gen_data(case)
-    a_l, y_l = make_learners(case['kind'], case['continuous'])
-    del LOG[:]
-    res, err = None, None
-    try:
-        warnings.simplefilter('ignore')     # statsmodels re-enables its own categories at import time
-        est = getattr(dr, case['cls'])(df, exposure='A', outcome='Y')
-        est.exposure_model('rid + L1 + L2', a_l, bound=case['bound'])
-        est.outcome_model('rid + A + L1 + L2', y_l)
-        est.fit(n_splits=case['k'], n_partitions=case['npart'], method=case['method'],
-                random_state=case['random_state'])
-        if case['continuous']:
-            res = [list(map(float, est.ace_vector)), list(map(float, est.ace_var_vector)), float(est.ace)]
-        else:
-            res = [list(map(float, est.risk_difference_vector)), list(map(float, est.risk_difference_var_vector)),
-                   float(est.risk_difference), list(map(float, est.risk_ratio_vector))]
-    except Exception as e:       # recorded and reported; the calls issued before the failure are still analysed
-        err = '%s: %s' % (type(e).__name__, str(e)[:120])
-    return [dict(e) for e in LOG], res, err, rows
+    out = []
+    warnings.simplefilter('ignore')     # statsmodels re-enables its own categories at import time
+    est = None
+    for st in steps:
+        a_l, y_l = make_learners(st['kind'], case['continuous'])
+        del LOG[:]
+        res, err, lside = None, None, False
+        try:
+            if est is None:
+                est = getattr(dr, case['cls'])(df, exposure='A', outcome='Y')
+            est.exposure_model('rid + L1 + L2', a_l, bound=st['bound'])
+            est.outcome_model('rid + A + L1 + L2', y_l)
+            est.fit(n_splits=st['k'], n_partitions=st['npart'], method=st['method'], random_state=st['random_state'])
+            res = _results(est, case['continuous'])
+        except Exception as e:       # recorded; judged by the caller (exception on a valid input = D failure)
+            err = '%s: %s' % (type(e).__name__, str(e)[:120])
+            lside = _learner_side(traceback.extract_tb(e.__traceback__))
+        out.append(([dict(e) for e in LOG], res, err, lside))
+    return out, rows
+
+
+def step_of(case):
+    return {k_: case[k_] for k_ in ('k', 'npart', 'method', 'random_state', 'kind', 'bound')}
+
+
+def run_impl(case):
+    """one fit of the real estimator; returns (log, results, error, rows)"""
+    out, rows = run_steps(case, [step_of(case)])
+    log, res, err, lside = out[0]
+    case['_learner_side'] = lside
+    return log, res, err, rows
 
 
 def partitions(log):
@@ -271,30 +311,42 @@ def judge_partition(part, rows, k, double):
     return out
 
 
+def strip_ids(log):
+    return [{k_: v for k_, v in e.items() if k_ != 'fit_id'} for e in log]
+
+
 def check_case(chk, drv, case):
     double = CLASSES[case['cls']]
     log1, res1, err1, rows = run_impl(case)
+    lside = case.pop('_learner_side', False)
     n, k = len(rows), case['k']
     chk.case(case, (case['cls'], k, case['npart'], n, case['data_seed']) if (n % k or case['npart'] > 1) else None,
              sample=case if chk.evals % 23 == 0 else None)
     chk.count('cls_' + case['cls'])
     chk.count('n_mod_k_nonzero' if n % k else 'n_mod_k_zero')
     chk.count('kind_' + case['kind'])
+    if case['random_state'] == 0:
+        chk.count('random_state_0')
     if n // k <= 1:
         chk.count('tiny_parts(<=1 row)')
-    rejected = k < (3 if double else 2)
-    if err1 is not None:
-        chk.count('impl_exception:' + err1.split(':')[0])
     # ---- D: determinism (a test on the implementation; every case in the thorough tier, every second in quick:
     #      each fit spends 0.5 s drawing its seeds from range(5000000))
     if case.get('twice', True):
         log2, res2, err2, _ = run_impl(case)
-        same = ([{k_: v for k_, v in e.items() if k_ != 'fit_id'} for e in log1] ==
-                [{k_: v for k_, v in e.items() if k_ != 'fit_id'} for e in log2])
-        chk.d(same and nan_equal(res1, res2) and (err1 is None) == (err2 is None),
+        case.pop('_learner_side', None)
+        chk.d(strip_ids(log1) == strip_ids(log2) and nan_equal(res1, res2) and (err1 is None) == (err2 is None),
               'same random_state reproduces partitions and estimates (two runs)',
               {'case': case, 'res1': res1, 'res2': res2})
         chk.count('determinism_tested')
+    analyse(chk, drv, case, step_of(case), log1, err1, lside, rows, double)
+
+
+def analyse(chk, drv, case, st, log1, err1, lside, rows, double):
+    """judge the calls of ONE fit (configuration `st`) -- gates D, H, K"""
+    n, k = len(rows), st['k']
+    rejected = k < (3 if double else 2)
+    if err1 is not None:
+        chk.count('impl_exception:' + err1.split(':')[0])
     parts = partitions(log1)
     if rejected:
         chk.k(err1 is not None and err1.startswith('ValueError') and not log1,
@@ -303,15 +355,22 @@ def check_case(chk, drv, case):
             rep, line = drv.ask('crossfit', double=int(double), k=k, rows=enc_list(rows, str), picks='-')
             chk.k(rep['status'] == 'err', 'model rejects n_splits below the minimum', {'case': case, 'model': rep})
         return
+    if err1 is not None:
+        if lside:
+            chk.discard('the user-supplied (real) learner itself raised on a part')
+        elif n // k >= 4:
+            chk.d(False, 'fit raised on a valid configuration', {'case': case, 'step': st, 'err': err1})
+        else:
+            chk.count('tiny_parts_numerical_exception')
     complete = parts if err1 is None else parts[:-1]
     if err1 is None:
-        chk.d(len(parts) == case['npart'], 'one split/fit/predict round per partition',
-              {'case': case, 'rounds': len(parts)})
+        chk.d(len(parts) == st['npart'], 'one split/fit/predict round per partition',
+              {'case': case, 'step': st, 'rounds': len(parts)})
     # reference seeds (documented procedure: RandomState(random_state).choice(range(5000000), n_partitions))
     # (choice(5000000, ...) consumes the stream exactly like choice(range(5000000), ...) without building the range)
-    seeds = RandomState(case['random_state']).choice(5000000, size=case['npart'], replace=False)
+    seeds = RandomState(st['random_state']).choice(5000000, size=st['npart'], replace=False)
     for pi, part in enumerate(complete):
-        ctx = {'case': case, 'partition': pi}
+        ctx = {'case': case, 'step': st, 'partition': pi}
         # ---- D: the property's predicate on the observed calls
         for ok, what in judge_partition(part, rows, k, double):
             chk.d(ok, what, dict(ctx, calls=part if not ok else None))
@@ -343,8 +402,48 @@ def check_case(chk, drv, case):
                   dict(ctx, model=rep if not ok else None, observed=canon(part) if not ok else None))
 
 
+def check_history(chk, drv, case):
+    """a history of (respecify learners / bound, fit with other n_splits / n_partitions / method / seed) on ONE
+    estimator object: every fit of the history is judged like a single fit, and the last one must reproduce,
+    call for call and number for number, a FRESH object given only the last specification"""
+    double = CLASSES[case['cls']]
+    steps = case['history']
+    outs, rows = run_steps(case, steps)
+    fresh, _ = run_steps(case, steps[-1:])
+    chk.case(case, ('history', case['cls'], tuple(s_['k'] for s_ in steps), case['data_seed']),
+             sample=case if chk.evals % 7 == 0 else None)
+    chk.count('history_' + case['cls'])
+    for st, (log, res, err, lside) in zip(steps, outs):
+        analyse(chk, drv, case, st, log, err, lside, rows, double)
+    (logh, resh, errh, _), (logf, resf, errf, _) = outs[-1], fresh[0]
+    chk.d(strip_ids(logh) == strip_ids(logf) and nan_equal(resh, resf) and (errh is None) == (errf is None),
+          'a fit after earlier fits on the same object equals the fit of a fresh object (calls and estimates)',
+          {'case': case, 'history_result': resh, 'fresh_result': resf, 'history_err': errh, 'fresh_err': errf})
+
+
+def make_history(rng, cls, tier):
+    double = CLASSES[cls]
+    lo = 3 if double else 2
+    case = make_case(rng, cls, 6, 1, tier)
+    case['n_total'] = int(rng.integers(40, 80)) + case['n_missing']
+    ks = [int(v) for v in rng.permutation(np.arange(lo, 7))[:3]]
+    if ks[-1] < max(ks[:-1]):            # make most histories end on a LARGER n_splits than seen before
+        ks = sorted(ks) if rng.uniform() < 0.7 else ks
+    if ks[0] == max(ks):                 # every history contains at least one increase of n_splits
+        ks[0], ks[1] = ks[1], ks[0]
+    kinds = [str(v) for v in rng.choice(['proba', 'nested', 'warm', 'reg', 'warm_nested'], size=3)]
+    case['history'] = [{'k': k_, 'npart': int(rng.integers(1, 4)), 'method': str(rng.choice(['median', 'mean'])),
+                        'random_state': int(rng.integers(0, 2 ** 31)), 'kind': kd,
+                        'bound': (False if rng.uniform() < 0.6 else 0.05)} for k_, kd in zip(ks, kinds)]
+    for k_ in ('k', 'npart', 'method', 'random_state', 'kind', 'bound', 'twice'):
+        case.pop(k_, None)
+    return case
+
+
 def make_case(rng, cls, k, npart, tier, tiny=False, kind=None):
     n = int(rng.integers(k, 3 * k + 1)) if tiny else int(rng.integers(4 * k, (12 if tier == 'quick' else 30) * k))
+    if kind in ('real', 'nested_real') and not tiny:      # a real classifier needs both classes in every part
+        n = int(rng.integers(14 * k, 24 * k))
     n_missing = int(rng.integers(0, 4)) if rng.uniform() < 0.4 else 0
     continuous = bool(rng.uniform() < 0.3)
     return {'cls': cls, 'k': int(k), 'npart': int(npart), 'n_total': n + n_missing, 'n_missing': n_missing,
@@ -357,8 +456,18 @@ def make_case(rng, cls, k, npart, tier, tiny=False, kind=None):
             'data_seed': int(rng.integers(0, 2 ** 31)), 'random_state': int(rng.integers(0, 2 ** 31))}
 
 
+def guarded(chk, fn, *args):
+    """anything a check cannot digest is a D failure with a replay for that case, never a tool failure (exit 2)"""
+    try:
+        fn(*args)
+    except Exception as e:
+        import traceback
+        chk.d(False, 'case could not be completed: %s: %s' % (type(e).__name__, str(e)[:120]),
+              {'case': args[-1], 'traceback': traceback.format_exc()[-1500:]})
+
+
 def run(chk, drv, rng, tier):
-    reps = 1 if tier == 'quick' else 5
+    reps = 1 if tier == 'quick' else 4
     cells = set()
     count = tcount = 0
     for rep in range(reps):
@@ -371,7 +480,7 @@ def run(chk, drv, rng, tier):
                     case = make_case(rng, cls, k, npart, tier, kind=KINDS[count % len(KINDS)])
                     count += 1
                     case['twice'] = tier == 'thorough' or count % 2 == 0
-                    check_case(chk, drv, case)
+                    guarded(chk, check_case, chk, drv, case)
                     cells.add((cls, k, npart))
             # tiny parts (n between k and 3k): AIPTW only -- the TMLE targeting GLM needs data in every part
             if 'AIPTW' in cls:
@@ -380,11 +489,20 @@ def run(chk, drv, rng, tier):
                                      kind=KINDS_TINY[tcount % len(KINDS_TINY)])
                     tcount += 1
                     case['twice'] = tier == 'thorough'
-                    check_case(chk, drv, case)
+                    guarded(chk, check_case, chk, drv, case)
             # rejected configurations
             case = make_case(rng, cls, 2 if double else 1, 1, tier)
             case['twice'] = False
             check_case(chk, drv, case)
+            # the falsy but valid seed 0 (and, thorough, other unusual valid seeds): determinism for every class
+            for seed in ([0] if tier == 'quick' else [0, 1, 2 ** 32 - 1]):
+                case = make_case(rng, cls, 3 if double else 2, 2, tier, kind=KINDS[(count + seed) % len(KINDS)])
+                case['random_state'] = int(seed)
+                case['twice'] = True
+                check_case(chk, drv, case)
+            # histories of fits on one object vs a fresh object
+            for _ in range(1 if tier == 'quick' else 2):
+                guarded(chk, check_history, chk, drv, make_history(rng, cls, tier))
     chk.extra['config_cells'] = len(cells)
     # pairing lists against Python's own negative indexing, all k up to 40 (K on the index arithmetic)
     if drv is not None:
@@ -406,6 +524,14 @@ def replay(rec):
             print('no replayable case in', f.get('what'))
             continue
         print('replaying', case)
+        if 'history' in case:
+            import common
+            c2 = common.Check('C04', 'replay', 0)
+            check_history(c2, None, case)
+            for g in c2.d_fail:
+                bad += 1
+                print(' FAILS:', g['what'])
+            continue
         log, res, err, rows = run_impl(case)
         print(' error:', err, ' estimates:', res)
         for pi, part in enumerate(partitions(log) if err is None else partitions(log)[:-1]):
